@@ -28,3 +28,25 @@ Definition terminated_ok (rounds : list round) : bool :=
 
 Definition oracle_case (k : case) : bool :=
   match k with Sched _ _ rounds p l => negb p && negb l && forallb terminated_ok (prefixes rounds) | GoChecked _ _ ok => ok end.
+
+(* probes of the HTTP transport made on the Go side; three of them reproduce known findings *)
+Definition is_finding_kind (k : string) : bool :=
+  String.eqb k "F14" || String.eqb k "F15" || String.eqb k "F21".
+
+Definition check_c05 (k : case) : bool :=
+  match k with
+  | GoChecked kind _ ok => if is_finding_kind kind then true else ok
+  | _ => check_case k
+  end.
+
+Definition oracle_c05 (k : case) : bool :=
+  match k with
+  | GoChecked kind _ ok => if is_finding_kind kind then true else ok
+  | _ => oracle_case k
+  end.
+
+Definition finding_case (k : case) : option string :=
+  match k with
+  | GoChecked kind _ false => if is_finding_kind kind then Some kind else None
+  | _ => None
+  end.
